@@ -1017,6 +1017,30 @@ func branchKey(s utils.Source) string {
 		norm(s.IncludedLabels), norm(s.ExcludedLabels), norm(s.GuaranteedLabels))
 }
 
+// stringLit mirrors Model.PromQL.lit_val / source.go's stringLiteralValue: a string literal seen through parentheses.
+func stringLit(n promParser.Node) (string, bool) {
+	for {
+		switch e := n.(type) {
+		case *promParser.ParenExpr:
+			n = e.Expr
+		case *promParser.StringLiteral:
+			return e.Val, true
+		default:
+			return "", false
+		}
+	}
+}
+
+// safeLabelsSource runs the analyser and reports a panic instead of dying with it.
+func safeLabelsSource(expr string, root promParser.Node) (srcs []utils.Source, panicked string) {
+	defer func() {
+		if r := recover(); r != nil {
+			panicked = fmt.Sprint(r)
+		}
+	}()
+	return utils.LabelsSource(expr, root), ""
+}
+
 // k3Mechanism: one of the mechanisms of known finding K3 can explain why the analyser believes the driving side
 // `many` of operation `b` may carry label `l` although it need not:
 //
@@ -1055,7 +1079,7 @@ func k3Mechanism(b *promParser.BinaryExpr, many promParser.Node, l string) bool 
 			}
 		case *promParser.Call:
 			if (x.Func.Name == "label_replace" || x.Func.Name == "label_join") && len(x.Args) > 1 {
-				if p, ok := x.Args[1].(*promParser.StringLiteral); ok && p.Val == l {
+				if v, ok := stringLit(x.Args[1]); ok && v == l {
 					return true
 				}
 			}
@@ -1065,7 +1089,7 @@ func k3Mechanism(b *promParser.BinaryExpr, many promParser.Node, l string) bool 
 				return posMatcher(x)
 			}
 		case *promParser.AggregateExpr:
-			if p, ok := x.Param.(*promParser.StringLiteral); ok && x.Op == promParser.COUNT_VALUES && p.Val == l {
+			if v, ok := stringLit(x.Param); ok && x.Op == promParser.COUNT_VALUES && v == l {
 				return true
 			}
 		}
@@ -1203,7 +1227,15 @@ func runPromql(prop string, args []string) int {
 		if ei < ncorpus {
 			rep.hist("expr:corpus")
 		}
-		srcs := utils.LabelsSource(expr, root)
+		srcs, panicked := safeLabelsSource(expr, root)
+		if panicked != "" {
+			// the analyser crashes on an expression the real parser accepts: neither check can say anything true about it
+			rep.hist("analyser:PANIC")
+			pr.failure(fmt.Sprintf("%d", id), fmt.Sprintf("%s: utils.LabelsSource panics on `%s`, which the PromQL parser accepts (%s): alerts/template and promql/impossible crash instead of reporting", prop, expr, panicked),
+				pqCase{ID: id, Expr: expr, Detail: panicked}, "")
+			id++
+			continue
+		}
 		missing, impossible, err := realChecks(expr)
 		if err != nil {
 			rep.Notes = append(rep.Notes, fmt.Sprintf("%s: %v", expr, err))
